@@ -63,6 +63,9 @@ def make_case(ctx, i):
             op_files.append({"path": ["ops", "g.graphql"], "doc": {"defs": [G.imp([".", "lib", "f.graphql"], None)] + moved2}})
             imported += [(x["name"], ["ops", "g.graphql"]) for x in moved2]
     config = {"schema": "./schema/*.graphql", "documents": ["./ops/*.graphql", "./ops/lib/*.graphql"], "extensions": {"nitrogql": {"generate": gen}}}
+    if i % 3 == 1:
+        # a plugin contributes a virtual schema file that sits between the schema files and the operation files in load order
+        config["extensions"]["nitrogql"]["plugins"] = ["nitrogql:model-plugin"]
     cap = lambda s: s[0].upper() + s[1:]
     expect_ops = []
     for f in op_files:
